@@ -144,6 +144,8 @@ func C14(p *an.Prog, r *an.Report) {
 		}
 	}
 	c14ReaderValidates(p, r)
+	c14LengthNarrowing(p, r, "C14.N4")
+	c02SigTypeSource(p, r, "C14.N5") // round trip with an empty remainder needs the trailing signature typed as the parser expects
 }
 
 type c14Quantity struct {
@@ -377,4 +379,141 @@ func c14ReaderValidates(p *an.Prog, r *an.Report) {
 
 func isValidateFn(f *ssa.Function) bool {
 	return f.Name() == "Validate" && f.Signature.Recv() != nil
+}
+
+// c14LengthNarrowing (N4): a length that is written into a fixed-width wire field must fit that
+// field: every conversion of a length-derived integer to a narrower unsigned type in the
+// constructors/serializers (functions reachable from the exported API without key-object
+// parameters) is proved to be within the target range (relational bounds engine, with caller
+// pre-conditions). A constructor that stores uint16(len(data)) without bounding len(data) builds a
+// value that passes Validate() (which truncates the same way) but cannot round-trip.
+func c14LengthNarrowing(p *an.Prog, r *an.Report, rule string) {
+	b := an.NewBounds(p)
+	b.Axioms = c04IntAxiom
+	if os.Getenv("C14DEBUG") != "" {
+		b.Debug = func(m string) { fmt.Fprintln(os.Stderr, "DEBUG", m) }
+	}
+	roots, _ := c04Roots(p)
+	// constructors with key-object parameters matter here too: the length they narrow is the caller's data
+	for _, fn := range p.ExportedAPI() {
+		if len(fn.Blocks) > 0 && fn.Synthetic == "" {
+			roots = append(roots, fn)
+		}
+	}
+	scope := p.Reachable(p.CG(), roots, func(f *ssa.Function) bool { return an.InLib(f) })
+	isRoot := map[*ssa.Function]bool{}
+	for _, f := range roots {
+		isRoot[f] = true
+	}
+	b.IsEntry = func(f *ssa.Function) bool { return isRoot[f] }
+	b.InScope = func(f *ssa.Function) bool { _, ok := scope[f]; return ok }
+	var fns []*ssa.Function
+	for f := range scope {
+		if an.InLib(f) {
+			fns = append(fns, f)
+		}
+	}
+	sort.Slice(fns, func(i, j int) bool { return an.FnKey(fns[i]) < an.FnKey(fns[j]) })
+	n := 0
+	for _, fn := range fns {
+		k := 0
+		for _, blk := range fn.Blocks {
+			for _, in := range blk.Instrs {
+				cv, ok := in.(*ssa.Convert)
+				if !ok || an.IsLogPlumbing(in) {
+					continue
+				}
+				dlo, dhi, ok1 := typeRangeInt64(cv.Type())
+				_, shi, ok2 := typeRangeInt64(cv.X.Type())
+				if !ok1 || !ok2 || dlo != 0 || shi <= dhi {
+					continue // not a narrowing to an unsigned type
+				}
+				l := b.LinOf(cv.X)
+				lengthDerived := false
+				for t := range l.T {
+					if t.Len {
+						lengthDerived = true
+					}
+				}
+				if !lengthDerived || onlyFeedsLogging(cv) {
+					continue
+				}
+				n++
+				k++
+				pr := b.ProveAt(cv, an.LinConst(dhi).Add(l, -1))
+				if rev, ok := c14NarrowReviewed[an.FnKey(fn)]; ok && !pr.OK && k <= rev.n {
+					o := r.Ob(rule+"r", fmt.Sprintf("%s/narrow%d", an.FnKey(fn), k), p.Pos(cv.Pos()), an.Discharged, "not decided by the prover — reviewed: "+rev.reason, append([]string{"value " + l.String()}, pr.Trail...)...)
+					o.Nontrivial = false
+					continue
+				}
+				r.Check(pr.OK, rule, fmt.Sprintf("%s/narrow%d", an.FnKey(fn), k), p.Pos(cv.Pos()),
+					fmt.Sprintf("the length narrowed to %s fits (<= %d) on every path", cv.Type().String(), dhi), append([]string{"value " + l.String()}, pr.Trail...)...)
+			}
+		}
+	}
+	r.Analysed["length narrowings"] = n
+}
+
+// c14NarrowReviewed: narrowings whose fit rests on a data invariant the per-function prover cannot
+// see; the allowance is per function and frozen.
+var c14NarrowReviewed = map[string]struct {
+	n      int
+	reason string
+}{
+	"(*data.Mapping).Data": {1, "uint16(len(payload)): a Mapping's pairs total at most 65,535 bytes because ValuesToMapping rejects larger sets (C11.M3) and ReadMapping takes them from a 2-byte size field; an invariant across constructors, not visible inside Data()"},
+}
+
+func typeRangeInt64(t types.Type) (lo, hi int64, ok bool) {
+	bt, isB := t.Underlying().(*types.Basic)
+	if !isB {
+		return 0, 0, false
+	}
+	switch bt.Kind() {
+	case types.Int8:
+		return -128, 127, true
+	case types.Int16:
+		return -32768, 32767, true
+	case types.Int32:
+		return -1 << 31, 1<<31 - 1, true
+	case types.Int, types.Int64:
+		return an.NegInf, an.PosInf, true
+	case types.Uint8:
+		return 0, 255, true
+	case types.Uint16:
+		return 0, 65535, true
+	case types.Uint32:
+		return 0, 1<<32 - 1, true
+	case types.Uint, types.Uint64, types.Uintptr:
+		return 0, an.PosInf, true
+	}
+	return 0, 0, false
+}
+
+// onlyFeedsLogging: every use of the converted value is log plumbing (field maps, formatting).
+func onlyFeedsLogging(v ssa.Value) bool {
+	refs := v.Referrers()
+	if refs == nil || len(*refs) == 0 {
+		return true
+	}
+	for _, ref := range *refs {
+		if _, ok := ref.(*ssa.DebugRef); ok {
+			continue
+		}
+		if an.IsLogPlumbing(ref) {
+			continue
+		}
+		if mi, ok := ref.(*ssa.MakeInterface); ok {
+			all := true
+			for _, r2 := range *mi.Referrers() {
+				if !an.IsLogPlumbing(r2) {
+					all = false
+				}
+			}
+			if all {
+				continue
+			}
+		}
+		return false
+	}
+	return true
 }
